@@ -141,7 +141,7 @@ m = {"version": 1,
      "hooks": {"guard": "--cfg fir_verif",
                "enable": "harness/.cargo/config.toml passes rustflags --cfg fir_verif to the harness build, whose path dependency is /repo (features rayon)",
                "baseline_off_cmd": "cd /repo && cargo test --workspace --no-fail-fast --offline",
-               "source_commits": ["ef02d83"], "add_only": True},
+               "source_commits": ["ef02d83", "927d2c0", "2fbaacf", "6d53a32"], "add_only": True},
      "engines": [{"name": "tlc", "path": "/usr/local/bin/tlc", "serves_properties": sorted(CHECKS), "kind_free_text": "TLA+ explicit-state model checker (model checks and trace validation)"},
                  {"name": "apalache", "path": "/usr/local/bin/apalache-mc", "serves_properties": sorted(CHECKS), "kind_free_text": "symbolic checker for arithmetic lemmas over full machine ranges"},
                  {"name": "firv", "path": "/verif/harness", "serves_properties": sorted(CHECKS), "kind_free_text": "Rust conformance harness: executes cases against the real library and records traces (no oracle)"}],
